@@ -14,3 +14,5 @@ import AITB.Props.C03Examples
 import AITB.Props.C03Bridge
 import AITB.Props.C03CheckSound
 import AITB.Props.C03Gap
+import AITB.Props.C03Trace
+import AITB.Props.C03AsFound
